@@ -234,6 +234,8 @@ def parse_spec(text):
             cur = Detector(t.split()[1])
             cur.aliases["file"] = ("Node::SourceUnit(arg1)", [])
             cur.aliases["unit"] = ("arg1", [])
+            for k_ in range(1, 5):
+                cur.aliases["arg%d" % k_] = ("arg%d" % k_, [])
             dets[cur.name] = cur
             continue
         if cur is None:
@@ -247,13 +249,13 @@ def parse_spec(text):
                 body = t[len("report "):]
                 if " when " in body:
                     p, f = body.split(" when ", 1)
-                    ps, imp = expand_path(p, cur.aliases)
+                    ps, imp = expand_alias_rhs(p.strip(), cur.aliases)
                     form = B.And(*(list(imp) + [Parser(f, cur.aliases).parse()]))
                     cur.reports.append((ps, form, form, ln))
                 elif " must " in body and " may " in body:
                     p, rest = body.split(" must ", 1)
                     f1, f2 = rest.split(" may ", 1)
-                    ps, imp = expand_path(p, cur.aliases)
+                    ps, imp = expand_alias_rhs(p.strip(), cur.aliases)
                     pre = list(imp)
                     cur.reports.append((ps, B.And(*(pre + [Parser(f1, cur.aliases).parse()])), B.And(*(pre + [Parser(f2, cur.aliases).parse()])), ln))
                 else:
@@ -281,6 +283,26 @@ def expand_alias_rhs(rhs, aliases):
         al = dict(aliases)
         al["__s"] = ("search{%s}(%s)" % (kinds, root), imp)
         return expand_path("__s" + m.group(3), al)
+    m = re.match(r"^tuple\((.*)\)$", rhs)
+    if m:
+        parts, depth, cur = [], 0, ""
+        for ch in m.group(1):
+            if ch in "({[":
+                depth += 1
+            if ch in ")}]":
+                depth -= 1
+            if ch == "," and depth == 0:
+                parts.append(cur.strip())
+                cur = ""
+            else:
+                cur += ch
+        parts.append(cur.strip())
+        outs, imps = [], []
+        for p_ in parts:
+            s2, i2 = expand_alias_rhs(p_, aliases)
+            outs.append(s2)
+            imps += i2
+        return ("tuple(%s)" % ", ".join(outs), imps)
     m = re.match(r"^(Node::[A-Za-z]+)\((.*)\)$", rhs)
     if m:
         inner, imp = expand_alias_rhs(m.group(2).strip(), aliases)
